@@ -139,6 +139,18 @@ def search(ctx, exe):
         cases = gen_cases(c2, "thorough")[:20000]
     finally:
         c2.cleanup()
+    # stall sweep: the contender stops k steps into its lock (announced, not yet queued), the holder then runs
+    # exactly m steps of its unlock before the contender continues: every boundary of a bounded poll/retry loop
+    sweep = []
+    for k in range(1, 9):
+        for m in range(0, 900):
+            sched = [0] * 3 + [1] * k + [0] * m + [1] * 60 + [0, 1] * 200
+            sweep.append(core.fmt_case([3000], [[(LOCK, 0), (UNLOCK, 0)], [(LOCK, 0), (UNLOCK, 0)]], sched))
+    for k in range(1, 6):
+        for m in range(0, 900, 1):
+            sched = [0] * 3 + [1] * k + [2] * k + [0] * m + [1] * 60 + [2] * 60 + [0, 1, 2] * 200
+            sweep.append(core.fmt_case([4000], [[(LOCK, 0), (UNLOCK, 0)]] * 3, sched))
+    cases = sweep + cases
     impl = core.run_sharded([exe], cases)
     for c, line in zip(cases, impl):
         why = core.safe_monitor(monitor, c, core.parse_trace(line) if line is not None else None, line)
